@@ -2173,6 +2173,17 @@ copyOneHeaderFromClientsideRequestToUpstreamRequest(const HttpHeaderEntry *e, co
 {
     debugs(11, 5, "httpBuildRequestHeader: " << e->name << ": " << e->value );
 
+    /** \par RFC 9110 section 7.6.1 - fields nominated by the Connection header
+     * are hop-by-hop and are never passed on, whether Squid knows them or not.
+     * Host and Content-Length are exempt: Squid generates its own values for
+     * them below, and letting a client remove them via Connection would
+     * enable request smuggling tricks. */
+    if (e->id != Http::HdrType::HOST && e->id != Http::HdrType::CONTENT_LENGTH &&
+            strConnection.size() > 0 && strListIsMember(&strConnection, e->name, ',')) {
+        debugs(11, 2, "'" << e->name << "' header cropped by Connection: definition");
+        return;
+    }
+
     switch (e->id) {
 
     /** \par RFC 2616 sect 13.5.1 - Hop-by-Hop headers which Squid should not pass on. */
@@ -2336,12 +2347,7 @@ copyOneHeaderFromClientsideRequestToUpstreamRequest(const HttpHeaderEntry *e, co
     default:
         /** \par default.
          * pass on all other header fields
-         * which are NOT listed by the special Connection: header. */
-        if (strConnection.size()>0 && strListIsMember(&strConnection, e->name, ',')) {
-            debugs(11, 2, "'" << e->name << "' header cropped by Connection: definition");
-            return;
-        }
-
+         * (those listed by the special Connection: header were dropped above). */
         hdr_out->addEntry(e->clone());
     }
 }
